@@ -126,7 +126,8 @@ def _make_wrapper(mon):
             STATE.depth -= 1
             mon.raised += 1
             call.exc = e
-            if mon.on_exc is not None and not isinstance(e, (KeyboardInterrupt, SystemExit)):
+            if mon.on_exc is not None and not isinstance(e, (KeyboardInterrupt, SystemExit)) and \
+                    type(e).__name__ != 'VTTimeout':      # the harness's own watchdog is not the library raising
                 STATE.suspend += 1
                 try:
                     if mon.on_exc(call) is not False:
